@@ -81,7 +81,23 @@ def _assemble(job, tmp):
     sys.path.insert(0, HARNESS)
     import impl
     impl.write_files(tmp, job.get("files"), job.get("bins"))
-    r = impl.assemble(job["src"], job["rom"], cwd=tmp)
+    if job.get("api") == "file":
+        # the file API on a source that lives in another directory than the process' working directory
+        from a816.program import Program
+        sub = os.path.join(tmp, "sub")
+        os.makedirs(sub, exist_ok=True)
+        impl.write_files(sub, job.get("files"), job.get("bins"))
+        path = os.path.join(sub, "prog.s")
+        with open(path, "w", encoding="utf-8") as fh:
+            fh.write(job["src"])
+        with impl.quiet():
+            try:
+                st = Program().assemble_as_patch(path, os.path.join(sub, "out.ips"))
+            except BaseException as e:  # noqa: BLE001
+                st = type(e).__name__
+        return f"file-api {st}"
+    # the process' working directory (set once, at the start of the child) is part of what a later assembly sees
+    r = impl.assemble(job["src"], job["rom"], cwd=None)
     import re
     err = re.sub(r" at 0x[0-9a-fA-F]+", " at ADDR", str(r["error"]))   # object addresses are not part of the result
     return impl.canon(r) + (" E=" + err[:160] if r["status"] != "ok" else "")
@@ -95,6 +111,7 @@ def _child(args):
     import core as _core  # noqa: F401  (sets REPO on sys.path through impl)
     import impl  # noqa: F401
     changed = []
+    os.chdir(tmp)
     fp0 = _fingerprint()
     for j, job in enumerate(history):
         try:
@@ -137,6 +154,9 @@ def vocab_program(rng, kind, drv):
     if kind == "ips":
         recs = b"".join((rng.randrange(0x100, 0x4000)).to_bytes(3, "big") + (n_ := rng.randrange(1, 5)).to_bytes(2, "big") + bytes(rng.randrange(256) for _ in range(n_)) for _ in range(rng.randrange(1, 4)))
         return {"src": f"*=0x008000\n.db 7\n.include_ips 'voc.ips', {rng.choice([0, 0x10, -0x10, 0x200])}\n.db 8\n", "rom": "low_rom", "bins": {"voc.ips": b"PATCH" + recs + b"EOF"}}
+    if kind == "file-failing":
+        return {"src": rng.choice(["*=0x008000\nlda.w nothing_defined\n", "*=0x008000\n.db 1\nlda.q 2\n", "*=0x008000\n}\n", ".include 'gone.s'\n", "*=0x008000\n.db 1\n"]),
+                "rom": "low_rom", "api": "file", "files": {"voc_inc.s": ".db 0x99\n"}}
     if kind == "failing":
         return {"src": rng.choice(["*=0x008000\nlda.w nothing_defined\n", "*=0x008000\n.db 1\nlda.q 2\n", "*=0x008000\n.macro half(v) {\n.db v\n", "*=0x008000\n.db 1\n*=0x700000\n.db 2\n", "*=0x008000\nload(5)\n", ".include 'gone.s'\n", "*=0x008000\nSHARED := 3\n.db SHARED\nbra shared_label + 300\n"]), "rom": "low_rom"}
     if kind == "uses-undefined":
@@ -152,7 +172,7 @@ def run(ctx):
     tmp = core.tmpdir()
     try:
         s = core.Stream("S19-history", "histories of 1-5 assemblies (valid generated programs, programs defining macros / symbols / tables / custom .map layouts with different geometries, programs failing in each phase, different ROM types) followed by a probe (valid, failing, using names only a history program defines, loading its own table / map), all in one fresh interpreter, vs the probe alone in another fresh interpreter; the probe is also repeated; monitor: every module/class-level mutable object and function default of the a816 and script packages is fingerprinted before and after each assembly; non-trivial = distinct (history kinds, probe kind)")
-        kinds = ["macros", "symbols", "table", "map", "failing", "generated", "generated", "include", "incbin", "ips"]
+        kinds = ["macros", "symbols", "table", "map", "failing", "generated", "generated", "include", "incbin", "ips", "file-failing"]
         probes = ["uses-undefined", "table", "map", "generated", "symbols", "failing", "macros", "include", "incbin", "ips"]
         jobs = []
         n = 60 if tier == "quick" else 500
@@ -165,6 +185,14 @@ def run(ctx):
             if pk == "uses-undefined":
                 hk = hk[:2] + ["macros", "symbols", "table"]   # the names the probe uses are all defined by the history
             history = [vocab_program(rng, k, drv) for k in hk]
+            if i % 10 == 9:
+                # a burst of failing assemblies (every phase, also inside nested includes) before the probe
+                hk = hk + ["failing-burst"]
+                chain = {f"deep{k}.s": f".include 'deep{k + 1}.s'\n" for k in range(5)}
+                chain["deep5.s"] = "lda #\n"
+                for k in range(22):
+                    history.append({"src": rng.choice(["lda #\n", "*=0x008000\n.db 1,\n", "}\n", ".macro m(\n", ".include 'deep0.s'\n", "lda.q 1\n", ".ascii 'x\n", "*=0x008000\nbra far + 300\nfar:\n"]),
+                                    "rom": "low_rom", "files": chain})
             probe = vocab_program(rng, pk, drv)
             d1 = os.path.join(tmp, f"h{i}")
             d2 = os.path.join(tmp, f"a{i}")
